@@ -228,8 +228,8 @@ func (w *world) invoke(k *jCall, method string, args []byte, preExec, commit boo
 		Gas:     1 << 60,
 		PreExec: preExec,
 	}
-	if k.Caller != "" {
-		sc.PushContext(&sctx.Context{ContractAddress: addrOf(k.Caller)})
+	for _, x := range k.callStack() {
+		sc.PushContext(&sctx.Context{ContractAddress: addrOf(x)})
 	}
 	ns, e := sc.NewNativeService()
 	if e != nil {
